@@ -14,7 +14,8 @@ import (
 // ---- domain "mut" (C12): services and routes change while requests are served ----
 // raw case = (router entry servers iters)
 //   a container with a service on "/", a stable service /a, a service /b with dynamic routes (one stable route, one
-//   route that a mutator keeps adding and removing) and a service /c that a second mutator keeps adding and removing.
+//   route that a mutator keeps adding and removing) and services /c and /d that two more mutators keep adding and
+//   removing, each checking that its own Add / Remove took effect (no lost update between mutators).
 //   `servers` goroutines send `iters` requests each (entry 0 Dispatch, 1 ServeHTTP, 2 both) and classify every answer:
 //   untouched targets must be answered as always; a target under change must get one of its two legal answers.
 // observation = (wrong-untouched wrong-changing panics blocked)
@@ -86,21 +87,48 @@ func runMut(raw Sx) (Sx, Sx) {
 			})
 		}
 	}()
-	go func() {
-		defer mwg.Done()
-		for {
-			select {
-			case <-stop:
-				return
-			default:
-			}
-			guard(func() {
-				wc := mkC()
-				c.Add(wc)
-				c.Remove(wc)
-			})
+	// two container-level mutators on different services: each sees its own service registered between its Add and
+	// its Remove (nobody else touches it), and gone after its Remove - whatever the other mutator is doing meanwhile
+	probeOwn := func(path, want string) {
+		hr, _ := http.NewRequest("GET", "http://h"+path, nil)
+		rec := httptest.NewRecorder()
+		c.Dispatch(rec, hr)
+		got := itoa(rec.Code) + ":"
+		if rec.Code == 200 {
+			got += rec.Body.String()
 		}
-	}()
+		if got != want {
+			atomic.AddInt64(&wrongChanging, 1)
+		}
+	}
+	for _, nm := range []string{"c", "d"} {
+		nm := nm
+		if nm == "d" {
+			mwg.Add(1)
+		}
+		go func() {
+			defer mwg.Done()
+			for {
+				select {
+				case <-stop:
+					return
+				default:
+				}
+				guard(func() {
+					w := mkC()
+					if nm == "d" {
+						w = new(restful.WebService)
+						w.Path("/d")
+						w.Route(w.GET("/y").To(say("D")))
+					}
+					c.Add(w)
+					probeOwn("/"+nm+"/y", "200:"+strings.ToUpper(nm))
+					c.Remove(w)
+					probeOwn("/"+nm+"/y", "404:")
+				})
+			}
+		}()
+	}
 	type target struct {
 		path  string
 		legal []string // "<status>:<body>"
